@@ -281,6 +281,7 @@ func (s *atpServerSession) handleWorkStartMessage(runID string, workStartMsg Wor
 	vh("s.start", "run", runID, "step", workStartMsg.StepID)
 	go func() {
 		s.runStep(runID, workStartMsg)
+		vh("s.step.done", "run", runID)
 		s.wg.Done()
 	}()
 }
@@ -312,6 +313,7 @@ func (s *atpServerSession) handleSignalMessage(runID string, signalMessage Signa
 	s.wg.Add(1) // Wait until the signal handler is done
 	vh("s.signal", "run", runID, "signal", signalMessage.SignalID)
 	go func() {
+		vh("s.sig.begin", "run", runID)
 		if err := s.pluginSchema.CallSignal(
 			s.ctx,
 			runID,
@@ -329,6 +331,7 @@ func (s *atpServerSession) handleSignalMessage(runID string, signalMessage Signa
 			}
 			vh("s.errq")
 		}
+		vh("s.sig.done", "run", runID)
 		s.wg.Done()
 	}()
 }
